@@ -216,6 +216,45 @@ def store_level(chk, rng, tier):
                 chk.violation("keys-differs", "KEYS %r returned %s, the glob relation selects %s" % (p, got_keys, want), dict(case=c["line"], pattern=repr(p), pattern_hex=hx(p), got=repr(got_keys), expected=repr(want)))
             elif got_scan != want:
                 chk.violation("scan-differs", "SCAN 0 MATCH %r returned %s, KEYS and the glob relation select %s" % (p, got_scan, want), dict(case=c["line"], pattern=repr(p), pattern_hex=hx(p), got=repr(got_scan), expected=repr(want)))
+    # a SCAN that continues from a non-zero cursor with ANOTHER pattern on the same connection: the pattern of THIS call decides
+    def scan_oracle(cursor, pat, count):
+        out = []
+        for i, k in enumerate(sorted(keys)):
+            if 0 < cursor and i <= cursor:
+                continue
+            if direct_glob(pat, k):
+                out.append(k)
+                if count <= len(out):
+                    break
+        return sorted(out)
+    cont = []
+    pairs = [(b"a*", b"b*"), (b"user:*", b"a?"), (b"*", b"a.c"), (b"a*", b"*"), (b"?", b"user:1*"), (b"nomatch*", b"a*")]
+    pairs += [(rng.choice(pats), rng.choice(pats)) for _ in range(10 if tier == "quick" else 200)]
+    for p1, p2 in pairs:
+        for cur in (1, 3, 7):
+            reqs = setup + [("SCAN", [b"0", b"MATCH", p1, b"COUNT", b"2"]), ("SCAN", [str(cur).encode(), b"MATCH", p2, b"COUNT", b"100000"]), ("SCAN", [b"0", b"MATCH", p2, b"COUNT", b"100000"])]
+            data = b"".join(G.request_bytes(n_, a) for n_, a in reqs)
+            cont.append(dict(reqs=reqs, p1=p1, p2=p2, cur=cur, line=L.mkcase([(0, "f" + L.hx(data)), (0, "e")], handler="example", trace=False)))
+    rc, o, _ = vlib.run_harness(["conn"], "\n".join(c["line"] for c in cont) + "\n", timeout=600)
+    outs = [l.split(" ", 1)[1] for l in o.splitlines() if " " in l and l.split(" ", 1)[0].isdigit()]
+    if rc != 0 or len(outs) != len(cont):
+        chk.violation("harness-failure", "SCAN continuation run failed rc=%d: %s" % (rc, o[-300:]), dict(stage="store"), True)
+        return n
+    for c, a in zip(cont, outs):
+        reps = S.replies_of(L.Obs(a))
+        if len(reps) != len(c["reqs"]):
+            chk.violation("store-replies", "expected %d replies, got %d (SCAN continuation)" % (len(c["reqs"]), len(reps)), dict(case=c["line"]))
+            continue
+        for idx, (cursor, pat) in ((len(reps) - 2, (c["cur"], c["p2"])), (len(reps) - 1, (0, c["p2"]))):
+            sr = reps[idx]
+            got = sorted(x[1] for x in sr[1][1][1]) if sr[0] == "*" and len(sr[1]) == 2 and sr[1][1][0] == "*" else None
+            want = scan_oracle(cursor, pat, 100000)
+            if got != want:
+                chk.violation("scan-continuation", "SCAN 0 MATCH %r COUNT 2 ; SCAN %d MATCH %r: the second call returned %s, its own pattern selects %s" % (c["p1"], cursor, pat, got, want),
+                              dict(case=c["line"], first_pattern=repr(c["p1"]), pattern=repr(pat), pattern_hex=hx(pat), cursor=cursor, got=repr(got), expected=repr(want)))
+                break
+        else:
+            n += 1
     chk.coverage["store_level_patterns"] = n
     return n
 
